@@ -155,6 +155,8 @@ const CONTEXTS: &[Ctxt] = &[
     Ctxt { name: "index subject", tmpl: "print(v[0] == v[0])\n", accept: &[K::List, K::Str] },
     Ctxt { name: "index assignment subject", tmpl: "w := v; w[0] = 3; print(w[0])\n", accept: &[K::List] },
     Ctxt { name: "range index subject", tmpl: "print(v[0:1] == v[0:1])\n", accept: &[K::List, K::Str] },
+    Ctxt { name: "full range index subject", tmpl: "print(v[:] == v[:])\n", accept: &[K::List, K::Str] },
+    Ctxt { name: "open range index subject", tmpl: "print(v[0:] == v[:1])\n", accept: &[K::List, K::Str] },
     Ctxt { name: "range assignment subject", tmpl: "w := v; w[0:1] = [3]; print(w[0])\n", accept: &[K::List] },
     Ctxt { name: "range assignment rhs", tmpl: "xs := [7, 8, 9]; xs[0:1] = v; print(xs)\n", accept: &[K::List, K::Str] },
     Ctxt { name: "type function subject", tmpl: "print(v->type())\n", accept: &[K::Bool, K::Int, K::Str, K::List, K::Obj, K::UFn, K::BFn] },
